@@ -38,6 +38,10 @@ def src_for(rot, numeric=True):
         # summaries are about the values, not about the order they are displayed in
         return ('<dtml-in seq%s sort="x/' + ('cf' if (numeric or rot % 8 == 1) else 'nocase') + '"><dtml-if sequence-end>' +
                 '|'.join('%s=<dtml-var %s-x>' % (s, s) for s in order) + '</dtml-if></dtml-in>')
+    if rot % 4 == 3:
+        # ... or simply sorted on the variable (and on two variables)
+        return ('<dtml-in seq%s sort=' + ('x' if rot % 8 == 3 else 'x,z') + '><dtml-if sequence-end>' +
+                '|'.join('%s=<dtml-var %s-x>' % (s, s) for s in order) + '</dtml-if></dtml-in>')
     if rot % 5 == 3:
         # shown in reverse (alone, with a sort, decided by an expression): the summaries are about the same values
         how = (' reverse', ' sort=x reverse', ' reverse_expr="1"')[(rot // 5) % 3]
@@ -101,6 +105,16 @@ def render(seq, mapping, rot=0, numeric=True):
         _t[key] = HTML(src_for(rot, numeric) % (' mapping' if mapping else ''))
     if rot % 3 == 2:
         seq = (e for e in seq)          # a generator: nothing can be read twice behind the tag's back
+    elif rot % 2 == 1 and len(seq) > 1:
+        # the caller keeps one list object and replaces its elements between two renderings (a results list that is refreshed in
+        # place): the summaries of the second rendering are about the elements it holds then
+        real = list(seq)
+        seq[:] = real[1:] + real[:1] if rot % 4 == 1 else [real[0]] * len(real)
+        try:
+            _t[key](seq=seq, cf=odd_order)
+        except Exception:  # noqa
+            pass
+        seq[:] = real
     return _t[key](seq=seq, cf=odd_order)
 
 
